@@ -2,13 +2,21 @@
    Property theorems only; each closed with [exact] and followed by
    Print Assumptions.
 
-   [fx : bool] selects the code that is modelled: [true] = the current code
-   (after the three fix: commits: has_same_tags by identity, non-operand tokens
-   rejected, RecursionError turned into ValueError), [false] = the code before
-   them.  [limit] = the nesting depth available to the recursive-descent parser
-   (only used when fx = true).  [matches fx e root] models
-   bool(QueryHandler.search(..)), [compile fx limit q] models QueryHandler(q),
-   [search] their composition.  Theorems quantified over [fx] hold of both. *)
+   [fx : bool] selects the code that is modelled.  [true] = the CURRENT code of
+   /repo, which contains fix commits 81fa420 (has_same_tags by identity),
+   1bd4096 (a token that is not an operand is rejected), 0643166 (RecursionError
+   of a too deeply nested query reported as ValueError) and c19994c (tag_terms
+   refreshed when short_base_tag is set, switch [fx4]).  [false] = the behaviour
+   BEFORE those commits, kept only as the record of the repaired defects
+   (theorems whose name contains _prefix_).  Theorems quantified over [fx] state the same
+   fact of both; no theorem is of the form "if fx then T else refutation".
+   [limit] = the nesting depth the interpreter allows the recursive-descent parser
+   (used when fx = true).  [matches fx e root] models bool(QueryHandler.search(..)),
+   [compile fx limit q] models QueryHandler(q), [compile_raw] the same before the
+   except clause of commit 0643166 (it tells an exhausted depth, RecursionError,
+   from a genuine rejection, ValueError), [search] composes compile and matches.
+   The searched annotation is a HedString, i.e. a group node [Group i ch]; theorems
+   that need this say so. *)
 From Coq Require Import List NArith Bool Permutation.
 From HV Require Import Base.Res Base.Str Model.Query Model.QueryParse Model.QueryEdit Proofs.QueryEditProofs
   Proofs.QueryProofs Proofs.QueryParseProofs Proofs.QueryBalanceProofs Proofs.QuerySiblingProofs
@@ -25,7 +33,10 @@ Proof. exact term_matches. Qed.
 Print Assumptions C15_term_matches.
 
 (* ... where mode 0 (bare) = the term is on the tag's schema path, mode 1
-   (quoted) = the exact tag, mode 2 (star) = short-form prefix. *)
+   (quoted) = the exact tag, mode 2 (star) = short-form prefix.  "Exact" is read
+   as the code implements it (HedTag.__eq__ with a str): equality of the
+   case-folded short form including the value; the query text is case-folded by
+   QueryHandler anyway. *)
 Theorem C15_term_modes : forall text i terms short org,
   (tag_matches 0 text (Tag i terms short org) = true <-> In (fold text) terms) /\
   (tag_matches 1 text (Tag i terms short org) = true <-> fold short = fold text) /\
@@ -60,13 +71,15 @@ Theorem C15_and_implies_both : forall fx t a b root,
 Proof. exact and_implies_both. Qed.
 Print Assumptions C15_and_implies_both.
 
-(* 'A && B' is associative (as a match verdict): all annotations, all A, B, C. *)
+(* 'A && B' is associative (as a match verdict), current code: all annotations
+   (the searched HedString is a group node), all A, B, C.  Symmetry and
+   "implies both" above hold for every root and both codes. *)
 Theorem C15_and_assoc : forall t1 t2 t3 t4 a b c i ch,
   matches true (EAnd t1 (EAnd t2 a b) c) (Group i ch) = matches true (EAnd t3 a (EAnd t4 b c)) (Group i ch).
 Proof. exact and_assoc_fixed. Qed.
 Print Assumptions C15_and_assoc.
 
-(* record: before the fix: commit associativity needed the hypothesis that no
+(* record (behaviour before fix commit 81fa420): associativity needed the hypothesis that no
    two distinct groups of the annotation compare equal *)
 Theorem C15_and_assoc_prefix_partial : forall t1 t2 t3 t4 a b c i ch,
   distinct_groups (Group i ch) ->
@@ -96,22 +109,25 @@ Theorem C15_sibling_order_search : forall limit q a b,
 Proof. exact sibling_order_search. Qed.
 Print Assumptions C15_sibling_order_search.
 
-(* record: before the fix: commit the invariance was provable only for queries
+(* record (behaviour before fix commit 81fa420): the invariance was provable only for queries
    built from search terms with || (holds of both codes) ... *)
 Theorem C15_sibling_order_prefix_partial : forall fx e, term_or_query e = true ->
   forall a b, sperm a b -> is_tag a = false -> matches fx e a = matches fx e b.
 Proof. exact sibling_order_terms_or. Qed.
 Print Assumptions C15_sibling_order_prefix_partial.
 
-(* ... and was FALSE in general: record of the repaired defect (finding C15-F1). *)
+(* ... and was FALSE in general: record of the repaired defect C15-F1 (behaviour
+   before fix commit 81fa420; the current code satisfies C15_sibling_order_invariant). *)
 Theorem C15_sibling_order_prefix_refuted :
   exists q a b, sperm a b /\ uniq a /\ search false 0 q a = Ok false /\ search false 0 q b = Ok true.
 Proof. exact sibling_order_refuted. Qed.
 Print Assumptions C15_sibling_order_prefix_refuted.
 
 (* Any query text either compiles or is rejected with ValueError -- nothing
-   else: whatever nesting depth is available to the parser (fx = true), resp.
-   the fuel never runs out (fx = false). *)
+   else, whatever nesting depth is available.  NOTE: with too small a [limit]
+   the ValueError is the reported depth overrun, not a judgement on the text;
+   the theorems C15_compile_raw_total .. C15_compile_depth_independent below
+   separate the two and show that enough depth never exhausts. *)
 Theorem C15_compile_total : forall fx limit (q : str),
   (exists e, compile fx limit q = Ok e) \/ compile fx limit q = Exn ValueError.
 Proof. exact compile_total. Qed.
@@ -126,13 +142,61 @@ Theorem C15_search_total : forall fx limit (q : str) (root : node),
 Proof. exact search_total. Qed.
 Print Assumptions C15_search_total.
 
-(* Unbalanced grouping symbols are always rejected (every text, every depth). *)
+(* Before the except clause of commit 0643166 there are exactly three outcomes;
+   RecursionError (depth exhausted) is a value of its own and occurs on the
+   current code only. *)
+Theorem C15_compile_raw_total : forall fx limit q,
+  (exists e, compile_raw fx limit q = Ok e) \/ compile_raw fx limit q = Exn ValueError \/
+  (fx = true /\ compile_raw fx limit q = Exn RecursionError).
+Proof. exact compile_raw_total. Qed.
+Print Assumptions C15_compile_raw_total.
+
+(* ENOUGH DEPTH NEVER EXHAUSTS: one nesting level per token of the query is
+   always enough, so the model's internal bound S (length tokens) never causes a
+   spurious rejection: the outcome is then a tree or a GENUINE ValueError. *)
+Theorem C15_enough_depth_never_exhausts : forall fx limit q,
+  S (length (tokenize (fold q))) <= limit -> compile_raw fx limit q <> Exn RecursionError.
+Proof. exact compile_raw_enough. Qed.
+Print Assumptions C15_enough_depth_never_exhausts.
+
+(* MORE DEPTH NEVER CHANGES AN ANSWER: a tree or a genuine ValueError obtained
+   at some depth is the outcome at every larger depth. *)
+Theorem C15_more_depth_same_answer : forall limit limit' q,
+  limit <= limit' -> compile_raw true limit q <> Exn RecursionError ->
+  compile_raw true limit' q = compile_raw true limit q.
+Proof. exact compile_raw_mono. Qed.
+Print Assumptions C15_more_depth_same_answer.
+
+(* hence QueryHandler(q) does not depend on the depth once it is sufficient *)
+Theorem C15_compile_depth_independent : forall limit limit' q,
+  S (length (tokenize (fold q))) <= limit -> S (length (tokenize (fold q))) <= limit' ->
+  compile true limit q = compile true limit' q.
+Proof. exact compile_depth_independent. Qed.
+Print Assumptions C15_compile_depth_independent.
+
+(* Unbalanced grouping symbols are always rejected (every text, every depth).
+   That this rejection is genuine -- not the depth overrun -- is
+   C15_unbalanced_rejected_genuine below. *)
 Theorem C15_unbalanced_rejected : forall limit q,
   balanced_groupers q = false -> compile true limit q = Exn ValueError.
 Proof. exact unbalanced_rejected. Qed.
 Print Assumptions C15_unbalanced_rejected.
 
-(* record of the repaired defect (finding C15-F2): before the fix: commit a
+(* an unbalanced text never yields a tree, at any depth ... *)
+Theorem C15_unbalanced_never_compiles : forall limit q e,
+  balanced_groupers q = false -> compile_raw true limit q <> Ok e.
+Proof. exact unbalanced_never_compiles. Qed.
+Print Assumptions C15_unbalanced_never_compiles.
+
+(* ... and with sufficient depth its rejection is the parser's own ValueError *)
+Theorem C15_unbalanced_rejected_genuine : forall limit q,
+  balanced_groupers q = false -> S (length (tokenize (fold q))) <= limit ->
+  compile_raw true limit q = Exn ValueError.
+Proof. exact unbalanced_rejected_genuine. Qed.
+Print Assumptions C15_unbalanced_rejected_genuine.
+
+(* record of the repaired defect C15-F2 (behaviour before fix commit 1bd4096;
+   the current code satisfies C15_unbalanced_rejected): a
    closing symbol where an operand is expected became a search term *)
 Theorem C15_unbalanced_rejected_prefix_refuted :
   exists q, balanced_groupers q = false /\ exists e, compile false 0 q = Ok e.
@@ -149,15 +213,18 @@ Example C15_nonvacuous :
                     match compile true 100 q with Exn ValueError => true | _ => false end) unbalanced_examples = true.
 Proof. exact nonvacuous. Qed.
 
-(* the old sibling-order witness agrees on the repaired code; a nesting deeper
-   than the available depth is a ValueError (finding C15-F3 repaired) *)
+(* the old sibling-order witness agrees on the current code (fix commit 81fa420);
+   a nesting deeper than the available depth is reported as ValueError (fix
+   commit 0643166, defect C15-F3) *)
 Example C15_repaired_witnesses :
   (search true 100 w_query w_ann1 = Ok true /\ search true 100 w_query w_ann2 = Ok true) /\
   (compile true 2 [ch_open; ch_open; ch_open; 97%N; ch_close; ch_close; ch_close] = Exn ValueError /\
    exists e, compile true 4 [ch_open; ch_open; ch_open; 97%N; ch_close; ch_close; ch_close] = Ok e).
 Proof. exact (conj sibling_witness_fixed depth_exceeded_valueerror). Qed.
 
-(* Annotations built or edited through the API.  The object keeps the source
+(* Annotations built or edited through the API.  HOLDS BY CONSTRUCTION OF THE
+   MODEL (obj_search reads o_root only); stated for the record, the content of
+   this clause is the harness test named below.  The object keeps the source
    text it was parsed from; edits (append, replace) change the content only.
    Whatever the source text and whatever the history of edits and of earlier
    searches, the answer is the answer on the current content.  (This holds by
@@ -192,16 +259,27 @@ Example C15_append_example :
 Proof. exact append_example. Qed.
 
 (* A tag whose base was changed through the API (expand_defs / shrink_defs turn
-   Def into Def-expand and back): with fix-F4 the bare-term mode tests the
+   Def into Def-expand and back): on the current code (fix commit c19994c) the bare-term mode tests the
    schema path of the new entry. *)
 Theorem C15_rebased_tag_terms : forall text new_terms new_short i terms s o,
   tag_matches 0 text (rebase_tag true new_terms new_short (Tag i terms s o)) = true <-> In (fold text) new_terms.
 Proof. exact rebase_terms_fixed. Qed.
 Print Assumptions C15_rebased_tag_terms.
 
-(* record of the defect (finding C15-F4): without fix-F4 the stale path is tested *)
+(* record of the repaired defect C15-F4 (behaviour before fix commit c19994c): the
+   stale path was tested *)
 Theorem C15_rebased_tag_terms_prefix_refuted :
   exists text new_terms new_short t,
     tag_matches 0 text (rebase_tag false new_terms new_short t) = true /\ ~ In (fold text) new_terms.
 Proof. exact rebase_terms_refuted. Qed.
 Print Assumptions C15_rebased_tag_terms_prefix_refuted.
+
+(* depth, concretely: "(((a)))" has 7 tokens; depth 2 is exhausted
+   (RecursionError before, ValueError after the except clause), depth 8 compiles;
+   "a)" is a genuine ValueError at depth 8 *)
+Example C15_depth_example :
+  compile_raw true 2 [ch_open; ch_open; ch_open; 97%N; ch_close; ch_close; ch_close] = Exn RecursionError /\
+  (exists e, compile_raw true 8 [ch_open; ch_open; ch_open; 97%N; ch_close; ch_close; ch_close] = Ok e) /\
+  compile_raw true 8 [97%N; ch_close] = Exn ValueError /\
+  S (length (tokenize (fold [ch_open; ch_open; ch_open; 97%N; ch_close; ch_close; ch_close]))) = 8.
+Proof. exact depth_raw_example. Qed.
